@@ -166,6 +166,29 @@ def partial_states(opname):
 
 
 
+_RMREF = {}
+
+
+def removed_reference(opname, victim):
+    key = (opname, victim)
+    if key not in _RMREF:
+        op = _ops()[opname]
+        installed = isinstance(wn._db.sqlite3, e3._Proxy)
+        e3.uninstall()
+        cur = wn.config._data_directory
+        env.close_pool()
+        d = env.fresh_db()
+        env.restore(pre_snapshot(op['pre']))
+        env.remove(victim)
+        env.close_pool()
+        _RMREF[key] = observe.exact_dump(env.db_path())
+        env.drop_db(d)
+        wn.config.data_directory = cur
+        if installed:
+            e3.install()
+    return _RMREF[key]
+
+
 def per_lexicon_ok(pre, after, final):
     """remove of several lexicons: one transaction per lexicon, so each lexicon (with its
     extensions) must be wholly present or wholly absent."""
@@ -218,6 +241,8 @@ def check(case):
             gc.collect()
             fired = e3.S.fired
             one = {'op': opname, 'kind': kind, 'points': [idx]}
+            if case.get('then_remove'):
+                one['then_remove'] = case['then_remove']
             if fired is None:
                 continue                      # the point does not exist in this run
             digs.append(f'{kind}:{raised.__name__ if raised else None}:{fired.split(" ")[0]}')
@@ -247,7 +272,27 @@ def check(case):
                         tables = sorted(t for t in now if now[t] != pre[t])
                         V.append((f'{op["kind"]}:database-changed-by-failed-call:{kind}',
                                   f'{what}: tables {tables} differ from the pre-state', None, one))
-            # the library stays usable: repeat without faults on the same connection
+            # the library stays usable (1): a *different* operation on the same connection - removing a
+            # lexicon that was installed before - must behave exactly as on an undisturbed database
+            if case.get('then_remove') and raised is not None and now == pre:
+                victim = case['then_remove']
+                try:
+                    wn.remove(victim, progress_handler=e3.CountingProgress)
+                    env.close_pool()
+                    after_rm = observe.exact_dump(env.db_path())
+                    if after_rm != removed_reference(opname, victim):
+                        tables = sorted(t for t in after_rm if after_rm[t] != removed_reference(opname, victim)[t])
+                        V.append((f'{op["kind"]}:later-remove-differs-after-failure:{kind}',
+                                  f'{what}: remove({victim!r}) afterwards leaves tables {tables} different from the '
+                                  f'same remove on an undisturbed database', None, one))
+                    probs = observe.integrity(env.db_path())
+                    if probs:
+                        V.append((f'{op["kind"]}:later-remove-leaves-orphans:{kind}', f'{what}: {probs[:3]}', None, one))
+                except Exception as exc:      # noqa: BLE001
+                    V.append((f'{op["kind"]}:unusable-after-failure:{kind}', f'{what}: remove({victim!r}) raised {exc!r}', None, one))
+                env.close_pool()
+                continue
+            # the library stays usable (2): repeat without faults on the same connection
             try:
                 perform(op, w / f'r{n}', e3.CountingProgress)
                 env.close_pool()
@@ -464,6 +509,11 @@ def space(tier, seed):
             for lo in range(1, total + 1, size):
                 cases.append(dict({'op': name, 'kind': kind, 'points': list(range(lo, min(total, lo + size - 1) + 1))}, **kw))
         chunks('cb', counts['cb'], 25)
+        victims = {'add-single-onto-unrelated': 'c:1', 'add-extension': 'a:1', 'add-two': 'a:1', 'add-gz': 'c:1',
+                   'add-ili': 'a:1'}
+        if name in victims:
+            chunks('cb', counts['cb'], 25, then_remove=victims[name])
+            chunks('st-before', counts['st'], 25, then_remove=victims[name])
         chunks('st-before', counts['st'], 25)
         chunks('st-after', counts['st'], 25)
         if tier == 'thorough' or name in ('add-single', 'add-extension', 'remove-base-with-extensions'):
